@@ -45,6 +45,8 @@ void reset_all()
 {
     S.tracks.clear();
     S.crates.clear();
+    S.tracks2.clear();
+    S.crates2.clear();
     S.db.reset();
     g_wrap.handles.clear();
 }
@@ -98,23 +100,55 @@ dj::crate& CR(const std::string& v)
 {
     auto it = S.crates.find(v);
     if (it == S.crates.end()) throw bad_command{"crate var " + v};
+    if (S.alias)
+    {
+        auto it2 = S.crates2.find(v);
+        if (it2 != S.crates2.end() && (S.alias_ctr++ & 1)) return it2->second;
+    }
     return it->second;
 }
 dj::track& TR(const std::string& v)
 {
     auto it = S.tracks.find(v);
     if (it == S.tracks.end()) throw bad_command{"track var " + v};
+    if (S.alias)
+    {
+        auto it2 = S.tracks2.find(v);
+        if (it2 != S.tracks2.end() && (S.alias_ctr++ & 1)) return it2->second;
+    }
     return it->second;
 }
 void put_crate(const std::string& v, const dj::crate& c)
 {
     S.crates.erase(v);
     S.crates.emplace(v, c);
+    S.crates2.erase(v);
+    if (S.alias && S.db)
+    {
+        try
+        {
+            if (auto c2 = S.db->crate_by_id(c.id())) S.crates2.emplace(v, *c2);
+        }
+        catch (const std::exception&)
+        {
+        }
+    }
 }
 void put_track(const std::string& v, const dj::track& t)
 {
     S.tracks.erase(v);
     S.tracks.emplace(v, t);
+    S.tracks2.erase(v);
+    if (S.alias && S.db)
+    {
+        try
+        {
+            if (auto t2 = S.db->track_by_id(t.id())) S.tracks2.emplace(v, *t2);
+        }
+        catch (const std::exception&)
+        {
+        }
+    }
 }
 
 // ------------------------------------------------------------ snapshot text
